@@ -1,0 +1,59 @@
+//! Hooks for property C09 (garbage is fully reclaimable: no space leak across GC cycles):
+//! a read-only per-space view of the page counters, and the side-metadata page estimate a space
+//! adds to a given number of data pages.  Thin wrappers only.
+
+use crate::util::linear_scan::Region;
+use crate::vm::VMBinding;
+
+#[derive(Clone, Debug)]
+pub struct SpacePages {
+    pub name: &'static str,
+    /// `PageResource::reserved_pages` / `committed_pages` of the space's page resource (data pages).
+    pub pr_reserved: usize,
+    pub pr_committed: usize,
+    /// `Space::reserved_pages` (data pages plus the estimate of side metadata pages).
+    pub space_reserved: usize,
+    /// `Space::estimate_side_meta_pages(floor)` for the `floor` passed to [`space_pages`].
+    pub meta_for_floor: usize,
+}
+
+/// One entry per space of the plan, in `for_each_space` order.  `floor(name)` is a number of data
+/// pages for which the space's side-metadata estimate is reported as well.
+pub fn space_pages<VM: VMBinding>(
+    mmtk: &crate::MMTK<VM>,
+    floor: &dyn Fn(&str) -> usize,
+) -> Vec<SpacePages> {
+    let mut v = vec![];
+    mmtk.get_plan()
+        .for_each_space(&mut |s: &dyn crate::policy::space::Space<VM>| {
+            if has_no_page_resource(s.get_name()) {
+                return;
+            }
+            let pr = s.get_page_resource();
+            v.push(SpacePages {
+                name: s.get_name(),
+                pr_reserved: pr.reserved_pages(),
+                pr_committed: pr.committed_pages(),
+                space_reserved: s.reserved_pages(),
+                meta_for_floor: s.estimate_side_meta_pages(floor(s.get_name())),
+            });
+        });
+    v
+}
+
+/// Sizes the no-leak bound is derived from: (bytes of a bump-allocator block, bytes of an Immix
+/// block, bytes of a native mark-sweep block, number of mark-sweep size classes).
+pub fn plan_constants() -> (usize, usize, usize, usize) {
+    (
+        crate::util::alloc::VERIF_BLOCK_SIZE,
+        crate::policy::immix::block::Block::BYTES,
+        crate::policy::marksweepspace::native_ms::Block::BYTES,
+        crate::policy::marksweepspace::native_ms::MI_BIN_FULL,
+    )
+}
+
+/// Spaces that have no page resource (`get_page_resource` / `common` are unreachable for them):
+/// they are left out of the per-space views.
+fn has_no_page_resource(name: &str) -> bool {
+    matches!(name, "MallocSpace" | "LockFreeImmortalSpace")
+}
